@@ -104,6 +104,14 @@ def main():
             print("--- demo output with change ---\n", o2[-1200:])
         if ok_clean is not True:
             print("--- demo output clean ---\n", o1[-1200:])
+    if "--no-checks" in sys.argv:
+        # confirmation only (no contention for /repo): the checks are run by a later call with --skip-verify
+        os.makedirs(dest, exist_ok=True)
+        shutil.copy(diff, f"{dest}/patch.diff"); shutil.copy(demo, f"{dest}/demo.rs")
+        if os.path.exists(md): shutil.copy(md, f"{dest}/description.md")
+        meta["needs_to_manifest"] = open(md).read()[:1500] if os.path.exists(md) else ""
+        json.dump(meta, open(f"{dest}/meta.json", "w"), indent=1)
+        return
     # 3. our checks against it, in /repo
     rc, o = sh("git status --porcelain", cwd="/repo")
     if o.strip(): raise SystemExit("/repo is not clean")
